@@ -63,15 +63,17 @@ def model(name):
 
 
 def _basis(ns, k, seed):
-    """k positive basis spectra of shape ns+1, deterministic"""
-    import dadi
+    """k positive basis spectra of shape ns+1, deterministic: well separated bumps along the total derived-allele
+    frequency (so that linear models built from them are well conditioned) plus a seed-dependent ripple"""
     shape = tuple(n + 1 for n in ns)
     idx = np.indices(shape).astype(float)
-    tot = sum(idx[d] / (ns[d] + 1.0) for d in range(len(ns)))
+    t = sum(idx[d] / float(ns[d]) for d in range(len(ns))) / len(ns)          # in [0, 1]
     out = []
     for j in range(k):
-        out.append(0.5 + np.cos(0.9 * (j + 1) * tot + 0.37 * seed + 0.2 * j) ** 2 + 0.3 * idx[j % len(ns)] / (ns[j % len(ns)] + 1.0)
-                   + 1.0 / (1.0 + tot * (j + 1)))
+        c = (j + 0.5) / k
+        w = 0.6 / k
+        out.append(0.15 + np.exp(-((t - c) / w) ** 2) + 0.05 * np.cos(7.0 * t + 0.9 * seed + j) ** 2
+                   + 0.05 * idx[j % len(ns)] / float(ns[j % len(ns)]))
     return out
 
 
